@@ -5240,16 +5240,23 @@ func (a *Agent) TaskDispatch(RequestID uint32, CommandID uint32, Parser *parser.
 									if teamserver.AgentExist(AgentHdr.AgentID) {
 
 										DemonInfo = teamserver.AgentInstance(AgentHdr.AgentID)
+
+										// an agent can't be linked below itself or below one of its own descendants
+										for up := a; up != nil; up = up.Pivots.Parent {
+											if up == DemonInfo {
+												Message["Type"] = "Error"
+												Message["Message"] = fmt.Sprintf("[SMB] Failed to connect: %x is the agent itself or one of its ancestors", AgentHdr.AgentID)
+												teamserver.AgentConsole(a.NameID, HAVOC_CONSOLE_MESSAGE, Message)
+												return
+											}
+										}
+
 										Message["MiscType"] = "reconnect"
 										Message["MiscData"] = fmt.Sprintf("%v;%x", a.NameID, AgentHdr.AgentID)
 
+										// leave the previous parent: its link list and the persisted link
 										if DemonInfo.Pivots.Parent != nil {
-											for i := range DemonInfo.Pivots.Parent.Pivots.Links {
-												if DemonInfo.Pivots.Parent.Pivots.Links[i].NameID == fmt.Sprintf("%08x", AgentHdr.AgentID) {
-													DemonInfo.Pivots.Parent.Pivots.Links = append(DemonInfo.Pivots.Parent.Pivots.Links[:i], DemonInfo.Pivots.Parent.Pivots.Links[i+1:]...)
-													break
-												}
-											}
+											teamserver.LinkRemove(DemonInfo.Pivots.Parent, DemonInfo, true)
 										}
 
 										DemonInfo.Active = true
@@ -5346,7 +5353,7 @@ func (a *Agent) TaskDispatch(RequestID uint32, CommandID uint32, Parser *parser.
 
 
 						AgentInstance := teamserver.AgentInstance(AgentID)
-						if AgentInstance != nil {
+						if AgentInstance != nil && AgentInstance.Pivots.Parent == a {
 							teamserver.LinkRemove(a, AgentInstance, true)
 						}
 					} else {
